@@ -221,8 +221,35 @@ from dataclass_wizard.v1 import (Pattern as VPattern, AwarePattern as VAwarePatt
     DatePattern as VDatePattern, TimePattern as VTimePattern, DateTimePattern as VDateTimePattern,
     AwareTimePattern as VAwareTimePattern, AwareDateTimePattern as VAwareDateTimePattern,
     UTCTimePattern as VUTCTimePattern, UTCDateTimePattern as VUTCDateTimePattern)
+from dataclass_wizard.v1 import Alias as VAlias
 from harness.props.c17 import MyDate, MyTime, MyDT
 '''
+
+# DIMENSION how the field itself is declared next to its (Annotated / subscripted) pattern: the pattern has to be found whatever field
+# specifier carries the default -- a bare default, dataclasses.field with / without metadata or a factory, the library's own
+# specifiers (default engine: json_field with one key / several keys and all=True; v1: Alias by position / load=).  The load and
+# dump key stays the field name in every form, so documents, expectations and the model request are those of the bare form.
+SPECS = {
+    'plain': 'None',
+    'field': 'field(default=None)',
+    'field_meta': "field(default=None, metadata={{'doc': 'when it happened'}})",
+    'field_factory': 'field(default_factory=lambda: None, metadata={{"unit": "s"}})',
+    'json_field': 'json_field({name!r}, default=None)',
+    'json_field_all': "json_field(({name!r}, 'alt_{name}'), all=True, default=None)",
+    'json_field_meta': "json_field({name!r}, default=None, metadata={{'doc': 'x'}})",
+    'alias': 'VAlias({name!r}, default=None)',
+    'alias_load': "VAlias(load=({name!r}, 'alt_{name}'), default=None)",
+    'alias_meta': "VAlias({name!r}, default=None, metadata={{'doc': 'x'}})",
+}
+SPECS_FOR = {'default': ['field', 'field_meta', 'field_factory', 'json_field', 'json_field_all', 'json_field_meta'],
+             'v1': ['field', 'field_meta', 'field_factory', 'alias', 'alias_load', 'alias_meta']}
+
+
+def pick_specs(rng, cm):
+    for f in cm['fields']:
+        f['spec'] = rng.choice(SPECS_FOR[cm['engine']]) if rng.random() < 0.5 else 'plain'
+        # further Annotated arguments next to the pattern (a documentation string), before or after it
+        f['extra'] = rng.choice(['before', 'after']) if f['ann'] is not None and rng.random() < 0.2 else None
 
 
 def render(cm, cname):
@@ -235,8 +262,9 @@ def render(cm, cname):
     for i, f in enumerate(cm['fields']):
         s = ty_src(f['ty'])
         if f['ann'] is not None:
-            s = f'Annotated[{s}, P{f["ann"]}]'
-        lines.append(f'    f{i}: {s} = None')
+            args = {None: f'P{f["ann"]}', 'before': f"'a note', P{f['ann']}", 'after': f"P{f['ann']}, 'a note'"}[f.get('extra')]
+            s = f'Annotated[{s}, {args}]'
+        lines.append(f'    f{i}: {s} = ' + SPECS[f.get('spec') or 'plain'].format(name=f'f{i}'))
     return '\n'.join(lines) + '\n'
 
 
@@ -872,7 +900,8 @@ def run(ctx: C.Ctx):
     ctx.rule = ('class models: engine {default, v1} × pattern objects (52 strptime patterns incl. -, +, %z, %p, %j, %y, ISO week, literal text, '
                 'ISO-shaped ones; v1: 1-3 patterns, zone none/UTC/named) in Annotated[...] or subscripted form × target date/time/datetime or '
                 'user subclass × position (bare, list, tuple, dict keys/values, Optional, nested) × class category (single, several fields, one '
-                'pattern object shared by two types, mixed types in one container, same-type pattern pairs, patterned then plain fields); '
+                'pattern object shared by two types, mixed types in one container, same-type pattern pairs, patterned then plain fields) × field '
+                'specifier carrying the default (bare, field(...) with / without metadata or factory, json_field / Alias forms) × further Annotated arguments; '
                 'per field documents in modes pattern / ISO / mixed / junk / other-pattern / number / null; each through from_dict, to_dict, '
                 'from_dict again on the implementation (oracle: stdlib strptime/fromisoformat readings, truncation law checked) and through the '
                 'Lean model with stdlib-backed tables. Non-trivial = distinct (class model, field, document).')
@@ -891,6 +920,7 @@ def run(ctx: C.Ctx):
         if ctx.done(i):
             break
         cm, cat = gen_class(rng)
+        pick_specs(rng, cm)
         law = []
         loads = []       # (field index, mode, doc, expectation)
         for fi, f in enumerate(cm['fields']):
@@ -937,6 +967,8 @@ def run(ctx: C.Ctx):
                 name = f'f{fi}'
                 case = {'cm': cm, 'cat': cat, 'field': fi, 'mode': mode, 'doc': doc}
                 ctx.seen(f'{cm["engine"]}:{cat}:{mode}', case)
+                if f.get('spec', 'plain') != 'plain' or f.get('extra'):
+                    ctx.seen(f'{cm["engine"]}:spec:{f.get("spec")}:{"ann" if f["ann"] is not None else "sub-or-plain"}', case)
                 out, v, d = eval_impl(Cls, cm['engine'], name, doc)
                 impl_outs.append(out)
                 docs_all.append(doc)
